@@ -30,6 +30,8 @@ ASSUMPTIONS = ['a dtml-raise name that is neither a builtin nor a zExceptions cl
                'an exception raised while rendering the body of a dtml-raise may either propagate or be '
                'replaced by the raise tag\'s own exception: the statement is silent, both are accepted',
                '"message" of an exception = its single str argument (args == (msg,)) or str(exc)',
+               'error_value is the caught exception instance (Try docstring: "the caught exception\'s value"), '
+               'error_type its class name; error_tb is only counted, never demanded',
                'a sub-template inserted with <dtml-var sub> contributes str(value) of its call result']
 SHARD_TIMEOUT = {'quick': 900, 'thorough': 3400}
 NSHARDS = {'quick': 16, 'thorough': 32}
@@ -117,15 +119,35 @@ class Harness:
         def cls(name):
             return U.resolve(name)
 
+        class Named:
+            """Namespace object rendered by name: the lookup hands it the namespace."""
+
+            def __init__(self, f, *args):
+                self.f = f
+                self.args = args
+
+            def __render_with_namespace__(self, md):
+                return self.f(*(self.args + (md,)))
+
         ns = {'probe': probe, 'boom': boom, 'callsub': callsub, 'cls': cls,
               'wobj': W(), 't_true': 1, 't_false': 0,
               'seq0': [], 'seq1': [1], 'seq2': [1, 2], 'seq3': [1, 2, 3]}
         ns.update(U.CUSTOM)
         for k, v in U.RV.items():
             ns['rv_' + k] = v
+        style = case.get('style', 'name')
+        trees = [case['tree']] + list(case.get('subs', {}).values())
+        for tree in trees:
+            for n, _ in U.walk(tree):
+                if n[0] == 'probe':
+                    ns['P_' + n[1]] = Named(probe, n[1])
+                elif n[0] == 'boom':
+                    ns['X_' + n[1]] = Named(boom, n[1], n[2], n[3], n[4])
+                elif n[0] == 'sub' and n[2] == 'call':
+                    ns['C_' + n[1]] = Named(callsub, n[1])
         for key, nodes in case.get('subs', {}).items():
-            subs[key] = ns['sub_' + key] = self.HTML(U.to_src(nodes))
-        src = U.to_src(case['tree'])
+            subs[key] = ns['sub_' + key] = self.HTML(U.to_src(nodes, style))
+        src = U.to_src(case['tree'], style)
         tmpl = self.HTML(src)
         exc = None
         try:
@@ -227,7 +249,7 @@ def check_case(ctx, harness, case, tally=True):
             models.append(('spec, raise-body exception replaced', a_out, a_trace))
             ctx.count('cases where the statement leaves two behaviours open')
     outcome, log, herr, exc, src = harness.run(case)
-    subsrc = sorted((k, U.to_src(v)) for k, v in case.get('subs', {}).items())
+    subsrc = sorted((k, U.to_src(v, case.get('style', 'name'))) for k, v in case.get('subs', {}).items())
     st = spec.stats
     nontrivial = bool(sum(v for k, v in st.items()
                           if k.startswith(('raise ', 'return value', 'finally:', 'try: else'))))
@@ -298,14 +320,20 @@ def run(ctx, spec):
     shard, nsh = ctx.shard, ctx.nshards
     sampled = {}
 
+    nstyle = [0]
+
     def do(case):
+        # every 6th case calls its probes from expressions, the others render them by name
+        nstyle[0] += 1
+        case['style'] = 'expr' if nstyle[0] % 6 == 0 else 'name'
+        ctx.count('probe style:' + case['style'])
         ok = check_case(ctx, h, case)
         part = case['part']
         sampled[part] = sampled.get(part, 0) + 1
         if ok and ctx.shard < 2 and sampled[part] == 12 + 9 * ctx.shard:
             outcome, log, _, _, src = h.run(case)
             ctx.sample({'part': case['part'], 'source': src,
-                        'subs': {k: U.to_src(v) for k, v in case['subs'].items()},
+                        'subs': {k: U.to_src(v, case['style']) for k, v in case['subs'].items()},
                         'engine_outcome': outcome, 'engine_events': [e[:3] for e in log[:12]]})
 
     # (1) handler grid
@@ -348,7 +376,7 @@ def run(ctx, spec):
                         ctx.count('placement: two kinds deep')
                         do(U.build_placement([k1, k2], act, cx))
     # (4) seeded random trees
-    nrand = (6000 if quick else 120000) // nsh
+    nrand = (6000 if quick else 80000) // nsh
     gen = U.RandomTrees(ctx.rng, 3 if quick else 4, 2 if quick else 3)
     for _ in range(nrand):
         case = gen.case()
